@@ -701,14 +701,63 @@ def gen_options(r, profile="mixed"):
     return opts, cfg
 
 
+def _n_out(L):
+    return L["n"] if L["op"] == "SPLIT" else 1
+
+
+def drop_layer(recipe, j):
+    """Remove layer j.  Consumers of its output are rewired to its first input when shape/dtype/quantisation agree;
+    otherwise the layer can only go if nothing consumes it.  -> new recipe or None."""
+    import copy
+
+    try:
+        shared.clear()
+        _, info = build(recipe)
+    except Exception:
+        return None
+    vals = info["values"]
+    n_in = len(recipe["inputs"])
+    first = n_in + sum(_n_out(L) for L in recipe["layers"][:j])
+    L = recipe["layers"][j]
+    outs = list(range(first, first + _n_out(L)))
+    used = any(v in outs for M in recipe["layers"][j + 1:] for v in M["in"])
+    repl = None
+    if used:
+        if len(outs) != 1 or not L["in"]:
+            return None
+        a, b = vals[outs[0]], vals[L["in"][0]]
+        if a["shape"] != b["shape"] or a["dtype"] != b["dtype"]:
+            return None
+        repl = L["in"][0]
+    new = copy.deepcopy(recipe)
+    del new["layers"][j]
+
+    def m(v):
+        if v in outs:
+            return repl
+        return v - len(outs) if v > outs[-1] else v
+
+    for M in new["layers"]:
+        M["in"] = [m(v) for v in M["in"]]
+    o = [m(v) for v in recipe["outputs"] if m(v) is not None]
+    nvals = n_in + sum(_n_out(M) for M in new["layers"])
+    usedv = set(v for M in new["layers"] for v in M["in"])
+    leaves = [v for v in range(n_in, nvals) if v not in usedv]
+    new["outputs"] = sorted(set(o) | set(leaves)) or ([nvals - 1] if nvals > n_in else [])
+    if not new["layers"]:
+        return None
+    return new
+
+
 def minimise_recipe(recipe, still_fails, budget=60):
-    """Delta-debug a recipe: drop trailing/unused layers, shrink sizes; keep a step only if still_fails(recipe')."""
+    """Delta-debug a recipe: drop layers (rewiring where shapes allow), shrink the input, keep a step only if the same
+    violation persists (still_fails(recipe'))."""
     import copy
 
     best = recipe
     steps = 0
 
-    def consistent(rc):
+    def ok(rc):
         try:
             shared.clear()
             build(rc)
@@ -719,28 +768,37 @@ def minimise_recipe(recipe, still_fails, budget=60):
     changed = True
     while changed and steps < budget:
         changed = False
-        # drop last layer
-        n_in = len(best["inputs"])
-        if len(best["layers"]) > 1:
-            cand = copy.deepcopy(best)
-            cand["layers"].pop()
-            nvals = n_in + sum(L.get("n", 1) if L["op"] == "SPLIT" else 1 for L in cand["layers"])
-            used = set(v for L in cand["layers"] for v in L["in"])
-            cand["outputs"] = [v for v in range(n_in, nvals) if v not in used] or [nvals - 1]
+        for j in range(len(best["layers"]) - 1, -1, -1):
+            if len(best["layers"]) <= 1 or steps >= budget:
+                break
+            cand = drop_layer(best, j)
+            if cand is None or not ok(cand):
+                continue
             steps += 1
-            if consistent(cand) and still_fails(cand):
+            if still_fails(cand):
                 best = cand
                 changed = True
-                continue
-        # halve input spatial dims / channels
-        for dim in (1, 2):
-            cand = copy.deepcopy(best)
-            s = cand["inputs"][0]["shape"]
-            if len(s) == 4 and s[dim] > 2:
-                s[dim] = max(1, s[dim] // 2)
+        for dim in (1, 2, 3):
+            s = best["inputs"][0]["shape"]
+            while len(s) == 4 and s[dim] > 1 and steps < budget:
+                cand = copy.deepcopy(best)
+                cand["inputs"][0]["shape"][dim] = max(1, s[dim] // 2)
+                if not ok(cand):
+                    break
                 steps += 1
-                if consistent(cand) and still_fails(cand):
+                if still_fails(cand):
                     best = cand
                     changed = True
+                    s = best["inputs"][0]["shape"]
+                else:
                     break
+        if len(best["outputs"]) > 1 and steps < budget:
+            for o in list(best["outputs"]):
+                cand = copy.deepcopy(best)
+                cand["outputs"] = [v for v in cand["outputs"] if v != o]
+                if cand["outputs"] and ok(cand):
+                    steps += 1
+                    if still_fails(cand):
+                        best = cand
+                        changed = True
     return best
